@@ -24,7 +24,7 @@ GROUPS = [
     ('chr',   [65, 49, 95, 32],                                  6, 8, [2]),
     ('dec',   [49, 43, 46, 69, 32, 65],                          5, 7, [3]),
     ('suf',   [47, 65, 45, 49, 46, 32],                          5, 7, [4]),
-    ('ndc',   [35, 72, 81, 66, 49, 50, 55, 56, 57, 65, 71],      4, 5, [5, 7]),
+    ('ndc',   [35, 72, 81, 66, 49, 50, 55, 56, 57, 65, 71, 0],   4, 5, [5, 7]),
     ('str',   [34, 39, 65, 128],                                 6, 8, [6]),
     ('blk',   [35, 48, 49, 50, 65],                              6, 7, [7, 5]),
     ('exp',   [40, 41, 65, 34, 10],                              5, 7, [8]),
